@@ -3,6 +3,7 @@ package main
 // Rules added after the fifth batch of independently seeded changes (waves 4–5).
 
 import (
+	"os"
 	"fmt"
 	"go/ast"
 	"go/constant"
@@ -799,6 +800,15 @@ func ruleReplayRecordResultsAfterErrTest(c *Ctx) {
 				return false
 			}
 			impossibleOnError := func(facts []Fact) bool {
+				if os.Getenv("DBG66") != "" {
+					for _, f := range facts {
+						tg := ""
+						if f.Tag != nil {
+							tg = types.ExprString(f.Tag)
+						}
+						fmt.Fprintf(os.Stderr, "DBG66 %s fact expr=%s val=%v tag=%s whole=%v\n", shortCallee(reader), types.ExprString(f.Expr), f.Val, tg, f.Whole)
+					}
+				}
 				for _, f := range facts {
 					if !f.Val || f.Whole {
 						continue
